@@ -44,6 +44,7 @@ struct Emitter {
   SourceManager &SM;
   json::OStream &J;
   DenseMap<const Stmt *, unsigned> ids;
+  DenseMap<const VarDecl *, unsigned> varIds;
   DenseMap<const Decl *, unsigned> declIds;
   std::vector<QualType> typeList;
   StringMap<unsigned> typeIdx;
@@ -135,6 +136,7 @@ struct Emitter {
   void emitVar(const VarDecl *VD) {
     J.object([&] {
       unsigned id = nextId++;
+      varIds[VD] = id;
       J.attribute("id", (int64_t)id);
       J.attribute("k", "Var");
       emitLoc(VD->getLocation());
@@ -412,6 +414,20 @@ struct Emitter {
                   if (it != ids.end() && it->second != last) {
                     J.value((int64_t)it->second);
                     last = it->second;
+                  } else if (it == ids.end()) {
+                    // `int a = 1, b = 2;` is split by the CFG builder into synthetic single-declarator DeclStmts that are
+                    // not AST nodes: refer to the declarator's Var node instead (prog.py wraps it into a DeclStmt)
+                    if (auto *DS = dyn_cast<DeclStmt>(CS->getStmt())) {
+                      if (DS->isSingleDecl()) {
+                        if (auto *VD = dyn_cast<VarDecl>(DS->getSingleDecl())) {
+                          auto vt = varIds.find(VD);
+                          if (vt != varIds.end() && vt->second != last) {
+                            J.value((int64_t)vt->second);
+                            last = vt->second;
+                          }
+                        }
+                      }
+                    }
                   }
                 }
               }
